@@ -964,6 +964,15 @@ pub fn main_with(props: Vec<Prop>) -> ! {
             req.extend(prop.required_thorough.iter());
         }
         for r in req {
+            if let Some(class) = r.strip_prefix("max5%:") {
+                // a class that must stay rare (e.g. prover_declined): more than 5% of the cases
+                // means the generator is unsound or the tree is broken wholesale -> inconclusive
+                let n = total.classes.get(class).copied().unwrap_or(0);
+                if n * 20 > total.cases.max(1) {
+                    missing.push(format!("{class} occurred in {n} of {} cases (> 5%)", total.cases));
+                }
+                continue;
+            }
             if total.classes.get(r).copied().unwrap_or(0) == 0 {
                 missing.push(r.to_string());
             }
